@@ -126,7 +126,11 @@ def layout(chk, repo):
     ev = Evaluator(repo, "ebpfcat.ebpf")
     fs = repo.func(E + "fmtsize")
     fails = []
-    for fmt in list("BHIQbhiq") + ["64I", "3H", "x"]:
+    # single letters, arrays, the native long, and tuples whose native
+    # layout has padding (pack()/unpack_from() on the Python side use the
+    # format as declared, i.e. native alignment)
+    for fmt in list("BHIQbhiqlL") + ["64I", "3H", "x", "BI", "HQ", "BH",
+                                     "BQ", "bq", "IQ", "HI", "BHB", "QB"]:
         want = 8 if fmt == "x" else calcsize(fmt)
         try:
             got = ev.call_function(fs, [fmt])
@@ -135,7 +139,7 @@ def layout(chk, repo):
         if got != want:
             fails.append(f"{fmt!r}: {got}")
     chk.ob("R08.2", E + "fmtsize", "reservation equals what pack() writes "
-           "(11 formats)", not fails, fs, "; ".join(fails) or "calcsize, 8 "
+           "(23 formats, tuples with native padding included)", not fails, fs, "; ".join(fails) or "calcsize, 8 "
            "for x")
 
 
